@@ -24,6 +24,8 @@ def run_cases(ctx, cases, label, scratch):
                 st = os.stat(paths[ino])
                 real_faults.append((prim, (st.st_dev, st.st_ino), en))
             r = ET.run_impl(b, c.top, c.opts, c.allow_create, c.allow_xdev, c.ops, key, real_faults)
+            if ET.LAST_STAMPS:
+                c.meta['stamps'] = list(ET.LAST_STAMPS)
         except Exception as e:
             r = ['harness-error', repr(e)]
         finally:
@@ -38,12 +40,23 @@ def run_cases(ctx, cases, label, scratch):
     for c, i, m in zip(cases, impl_res, model):
         links = c.tree.link_paths()
         i, m = canon_result(i, links), canon_result(m, links)
+        i, m = exhausted(i, m)
         if i != m:
             ctx.violation('correspondence', f'{label}: model and implementation differ',
-                          {'where': label, 'meta': {k: v for k, v in c.meta.items() if k != 'paths'}, 'ops': c.ops,
+                          {'where': label, 'meta': {k: v for k, v in c.meta.items() if k not in ('paths', 'stamps')}, 'ops': c.ops,
                            'impl': i, 'model': m, 'tree': describe(c.tree)})
         out.append((c, i, m))
     return out
+
+
+def exhausted(i, m):
+    """Manifests loaded endlessly through a symlink cycle: the kernel ends it (ELOOP after 40 links, ENAMETOOLONG),
+    the model by running out of fuel - both are 'no answer, an error'"""
+    if i[0] == 'ok' and m[0] == 'ok' and i[1] and m[1] and len(i[1]) == len(m[1]):
+        a, b = i[1][-1], m[1][-1]
+        if b == ['err', ['OutOfFuel']] and a[0] == 'err' and a[1][0] == 'OSError' and a[1][1] in ('ELOOP', 'ENAMETOOLONG'):
+            return ['ok', i[1][:-1] + [['err', ['Exhausted']]]], ['ok', m[1][:-1] + [['err', ['Exhausted']]]]
+    return i, m
 
 
 def canon_result(x, links=()):
@@ -657,6 +670,7 @@ def gen_update_case(r, profile='default', rounds=None):
                 muts.append('unregistered:' + kind + ':' + p)
     c.meta['mutations'] = muts
     c.meta['prior'] = prior
+    t.hardlinks = True
     c.meta['order_seed'] = r.randint(0, 5)
     hashes = r.choice(HASHSETS)
     sort = r.random() < 0.5
